@@ -167,7 +167,12 @@ pub fn same_path<R1, R2>(a: impl FnOnce() -> R1, b: impl FnOnce() -> R2) -> (R1,
     let seq: Vec<bool> = decisions_since(n0).iter().map(|d| d.outcome).collect();
     sx::force_seq(seq);
     let rb = b();
-    assert_eq!(sx::force_pending(), 0, "second call made fewer decisions than the first");
+    if sx::force_pending() != 0 {
+        // the second call compared less than the first (e.g. a cached verdict): drop the unused outcomes; the caller's
+        // obligations then lack the corresponding hypotheses and fail, which is the right verdict
+        sx::force_seq(vec![]);
+        eng::note("same_path: the second call made fewer comparisons than the first");
+    }
     (ra, rb)
 }
 
